@@ -35,7 +35,7 @@ Fixpoint det_run (s : state) (ls : list label) : Prop :=
 
 (* value invariant: what is published is the function's value for its source *)
 Definition DV (s : state) : Prop :=
-  (vst s <> 0 -> exists d, vsrc s = Some d /\ (vwt (cfg s) = true -> vst s = vcode (fvalid (dtext d)))) /\
+  (vst s <> 0 -> exists d, vsrc s = Some d /\ (hval (cfg s) = true -> vst s = vcode (fvalid (dtext d)))) /\
   (forall t d, sug s = Some (t, d) -> fsugg (dtext d) = Some t).
 
 (* steps that only keep or clear verdict and suggestion *)
@@ -64,17 +64,20 @@ Qed.
 Ltac vs := unfold VS; simp; auto.
 
 Lemma VS_text_changed s : VS s (text_changed s).
-Proof. unfold text_changed. destruct (vwt (cfg s)); vs. Qed.
+Proof. unfold text_changed. destruct (hval (cfg s) && vwt (cfg s)); vs. Qed.
+
+Lemma VS_cursor_changed s : VS s (cursor_changed s).
+Proof. unfold cursor_changed. destruct (vst s =? 1); vs. Qed.
 
 Lemma VS_set_document s d : VS s (set_document s d).
 Proof.
-  unfold set_document, cursor_changed.
+  unfold set_document.
   set (s1 := set_doc_fields s (dtext d) (Z.max 0 (dcur d))).
   assert (A : VS s s1) by (unfold s1; vs).
   destruct (negb (str_eqb (dtext d) (text s))); destruct (negb (Z.max 0 (dcur d) =? cur s)).
-  - eapply VS_trans; [exact A|]. eapply VS_trans; [apply VS_text_changed|]. vs.
+  - eapply VS_trans; [exact A|]. eapply VS_trans; [apply VS_text_changed|apply VS_cursor_changed].
   - eapply VS_trans; [exact A|apply VS_text_changed].
-  - eapply VS_trans; [exact A|]. vs.
+  - eapply VS_trans; [exact A|apply VS_cursor_changed].
   - exact A.
 Qed.
 
@@ -101,8 +104,9 @@ Qed.
 
 Lemma VS_move_cursor s p : VS s (move_cursor s p).
 Proof.
-  unfold move_cursor, cursor_changed.
-  match goal with |- context [if ?c then s else _] => destruct c end; vs.
+  unfold move_cursor.
+  match goal with |- context [if ?c then s else _] => destruct c end; [apply VS_refl|].
+  eapply VS_trans; [|apply VS_cursor_changed]. vs.
 Qed.
 
 Lemma VS_set_text s v : VS s (set_text s v).
@@ -235,7 +239,7 @@ Lemma DV_validate_sync s ok epos sc : DV s -> ok = fvalid (text s) -> DV (valida
 Proof.
   intros D Hok. unfold validate_sync. destruct (vst s =? 0) eqn:E0; [|exact D].
   destruct D as (_ & D2).
-  destruct (vwt (cfg s)) eqn:Ev; cbn [andb].
+  destruct (hval (cfg s)) eqn:Ev; cbn [andb].
   - destruct ok; cbn [negb].
     + split; simp; [|exact D2]. intros _. eexists. split; [reflexivity|]. simp. intros _. rewrite <- Hok. reflexivity.
     + assert (A : forall s1, VS s s1 -> DV (set_val s1 2 (Some (cur_doc s)))).
@@ -306,7 +310,7 @@ Proof. split; cbn; [intros A; congruence|intros ? ? A; discriminate A]. Qed.
 
 (* what is shown is the wrapped function's value for the text that is shown *)
 Theorem det_shown c t p ls :
-  0 <= p <= len t -> vwt c = true -> det_run (init c t p) ls ->
+  0 <= p <= len t -> hval c = true -> det_run (init c t p) ls ->
   let s := run (init c t p) ls in
   (vst s <> 0 -> vst s = vcode (fvalid (text s))) /\
   (forall sg d, sug s = Some (sg, d) -> fsugg (text s) = Some sg).
